@@ -17,6 +17,7 @@ function on every leg; the driver/tap records the response as sent.  Monitors:
 """
 
 import asyncio
+import atexit
 import collections.abc
 import datetime
 import http
@@ -24,6 +25,8 @@ import io
 import json
 import logging
 import os
+import shutil
+import tempfile
 import time
 import types
 import warnings
@@ -437,11 +440,25 @@ def is_form(m):
     return type(m).__name__ == 'MultipartForm'
 
 
+def part_text_sync(part):
+    try:
+        return part.get_text()
+    except Exception as ex:  # noqa
+        return rec_exc(ex)
+
+
+async def part_text_async(part):
+    try:
+        return await part.get_text()
+    except Exception as ex:  # noqa
+        return rec_exc(ex)
+
+
 def parts_sync(form):
     out = []
     try:
         for part in form:
-            out.append([part.name, part.filename, part.content_type, part.get_data()])
+            out.append([part.name, part.filename, part.content_type, part.get_data(), part_text_sync(part)])
     except Exception as ex:  # noqa
         out.append(rec_exc(ex))
     return ['parts', out]
@@ -451,7 +468,7 @@ async def parts_async(form):
     out = []
     try:
         async for part in form:
-            out.append([part.name, part.filename, part.content_type, await part.get_data()])
+            out.append([part.name, part.filename, part.content_type, await part.get_data(), await part_text_async(part)])
     except Exception as ex:  # noqa
         out.append(rec_exc(ex))
     return ['parts', out]
@@ -816,6 +833,23 @@ async def a_custom_handler(req, resp, ex, params):
     resp.set_header('X-Handled', type(ex).__name__)
 
 
+_STATIC = {}
+
+
+def static_dir():
+    if 'dir' not in _STATIC:
+        d = tempfile.mkdtemp(prefix='verif-c06-static-')
+        atexit.register(shutil.rmtree, d, True)
+        os.mkdir(os.path.join(d, 'sub'))
+        for name, data in (('a.txt', b'static A\n'), ('b.json', b'{"static": true}'), ('sub/c.bin', bytes(range(256)) * 40),
+                           ('index.html', b'<p>index</p>'), ('empty.txt', b'')):
+            with open(os.path.join(d, name), 'wb') as f:
+                f.write(data)
+            os.utime(os.path.join(d, name), (1500000000, 1500000000))
+        _STATIC['dir'] = d
+    return _STATIC['dir']
+
+
 ROUTES = ['/', '/items', '/items/{item_id}', '/u/{name}/posts/{pid:int}', '/files/{rest:path}']
 
 _APPS = {}
@@ -830,8 +864,10 @@ def apps_for(opts, mw='independent'):
     if key in _APPS:
         return _APPS[key]
     indep = mw != 'dependent'
-    wa = falcon.App(middleware=make_middleware(False), independent_middleware=indep)
-    aa = falcon.asgi.App(middleware=make_middleware(True), independent_middleware=indep)
+    # everything not under test is left at the constructor's DEFAULT (a default that drifts in one stack must show)
+    extra = {} if indep else {'independent_middleware': False}
+    wa = falcon.App(middleware=make_middleware(False), **extra)
+    aa = falcon.asgi.App(middleware=make_middleware(True), **extra)
     for app, res, sink, handler in ((wa, WResource(), w_sink, w_custom_handler), (aa, AResource(), a_sink, a_custom_handler)):
         app.req_options.strip_url_path_trailing_slash = key[0]
         app.req_options.keep_blank_qs_values = key[1]
@@ -839,6 +875,10 @@ def apps_for(opts, mw='independent'):
         for r in ROUTES:
             app.add_route(r, res)
         app.add_sink(sink, '/sink')
+        # static routes: one under the sink's prefix (sinks are documented to win by default on both stacks), one apart
+        app.add_static_route('/sink/static', static_dir())
+        app.add_static_route('/static', static_dir())
+        app.add_static_route('/dl', static_dir(), downloadable=True, fallback_filename='a.txt')
         app.add_error_handler(CustomError, handler)
     hold = {}
 
@@ -1064,22 +1104,30 @@ def history_requests(hist):
 
     Documented client semantics (TestClient / ASGIConductor `headers=`): "Default headers to set on every request ...
     may be overridden by passing values for the same headers to one of the simulate_*() methods" - so the abstract
-    request of step i carries defaults updated by that step's own headers, and nothing from any other step."""
+    request of step i carries defaults updated by that step's own headers (and its own content type / body), and
+    nothing from any other step.  A step may choose any simulator argument style (step['sim'])."""
     out = []
     for step in hist['steps']:
         merged = dict(hist['defaults'] or {})
         merged.update(step.get('headers') or {})
+        if step.get('ctype') is not None:
+            merged = {k: v for k, v in merged.items() if k.lower() != 'content-type'}
+            merged['Content-Type'] = step['ctype']
         req = M.new_request(method=step.get('method', 'GET'), target=step.get('target', '/items'), query=step.get('query', ''),
                             headers=[[k, v] for k, v in merged.items()], body=step.get('body', ''), opts=hist.get('opts', [False, True, False]),
                             mw=hist.get('mw', 'independent'))
         req['script'] = step.get('script') or G.default_script()
         M.finalize(req)
-        G.with_sim(req, DEFAULT_UA)
+        G.with_sim(req, DEFAULT_UA, step.get('sim'))
         kw, why = M.sim_kwargs(req, DEFAULT_UA)
         if kw is None:
             raise ValueError('history step not expressible: %s' % why)
-        if 'headers' in step:
-            kw['headers'] = None if step['headers'] is None else dict(step['headers'])
+        per_call = None if step.get('headers') is None else dict(step['headers'])
+        if step.get('ctype') is not None and 'content_type' not in kw and 'json' not in kw:
+            per_call = dict(per_call or {})
+            per_call['Content-Type'] = step['ctype']            # no argument carries it: it is a per-call header
+        if 'headers' in step or per_call is not None:
+            kw['headers'] = per_call
         else:
             kw.pop('headers', None)
         req['_headers_form'] = step.get('headers_form')
@@ -1651,6 +1699,7 @@ CLASS_FLOORS = ['cls.path-pct-utf8', 'cls.path-invalid-utf8', 'cls.path-trailing
                 'resp.body.stream.set_stream', 'read.read', 'read.readn', 'read.iter', 'read.media', 'read.multipart',
                 'fam.E6.sim-style', 'fam.E6.sim-query-style', 'sim.style.inline-query', 'sim.style.inline-query-with-qmark',
                 'sim.style.params-dict', 'fam.E6.sim-ows', 'sim.style.ows-header-value', 'sim.style.none-header-value',
+                'fam.E1.static', 'fam.E4.multipart-limits', 'mon.default-options',
                 'fam.E8.ops-single', 'fam.E8.render-then-change', 'fam.E8.preset-x-mode', 'fam.E6.sim-header-forms',
                 'sim.style.headers-one-shot', 'sim.style.headers-mapping', 'sim.style.headers-mappingproxy', 'sim.style.headers-tuple',
                 'fam.E3.fwd-kinds', 'fam.E6.sim-arg-forms', 'sim.style.port-str', 'sim.style.body-str',
@@ -1660,8 +1709,38 @@ CLASS_FLOORS = ['cls.path-pct-utf8', 'cls.path-invalid-utf8', 'cls.path-trailing
                 'fam.H.client-history', 'hist.defaults+extra-then-later-request', 'mon.digest.TW', 'mon.digest.TA', 'mon.digest.CA']
 
 
+def scalar_options(app):
+    out = {}
+    for name in ('req_options', 'resp_options', 'router_options'):
+        o = getattr(app, name)
+        for attr in sorted(set(dir(o)) - set(dir(object))):
+            if attr.startswith('_'):
+                continue
+            try:
+                v = getattr(o, attr)
+            except Exception as ex:  # noqa
+                v = rec_exc(ex)
+            if v is None or isinstance(v, (bool, int, float, str)):
+                out[name + '.' + attr] = v
+            elif isinstance(v, (dict, falcon.media.Handlers)):
+                out[name + '.' + attr] = sorted((str(k), type(x).__name__.replace('Async', '')) for k, x in v.items())
+            elif isinstance(v, (list, tuple, set, frozenset)) and all(isinstance(x, (str, int)) for x in v):
+                out[name + '.' + attr] = sorted(v)
+    return out
+
+
+def check_default_options(rec):
+    """Configurations: a WSGI and an ASGI app built with default constructor arguments start from the same public options."""
+    w, a = scalar_options(falcon.App()), scalar_options(falcon.asgi.App())
+    rec.count('mon.default-options', len(w))
+    bad = {k: [w.get(k, '<absent>'), a.get(k, '<absent>')] for k in set(w) | set(a) if w.get(k, '<absent>') != a.get(k, '<absent>')}
+    if bad:
+        rec.violation('default-options-differ', {'wsgi_vs_asgi': bad})
+
+
 def run(rec):
     setup(rec)
+    check_default_options(rec)
     idx = 0
     n_fam = 0
     for family, req in G.families(rec.tier, DEFAULT_UA):
